@@ -420,16 +420,16 @@ def enc_dev(W, i, o):
     else:
         out += [0, -1, 0, 0, 1, 0, 0, 0, 0]
     if k == 4:
-        out += [o._level, len(o._buffer)]
+        out += [o.level(), len(o._buffer)]
         for t, it in o._buffer:
             out += [to_ticks(t)] + enc_item(W, it)
     else:
         out += [0, 0]
     if k == 5:
         mp = o._max_produced_parts
-        out += [-1 if mp == float('inf') else int(mp), o._produced_parts, to_ticks(o._cost_of_produced_parts), 0, 0]
+        out += [-1 if mp == float('inf') else int(mp), o.produced_parts, to_ticks(o.cost_of_produced_parts), 0, 0]
     elif k == 6:
-        out += [-1, 0, 0, o._received_parts_count, to_ticks(o._value_of_received_parts)]
+        out += [-1, 0, 0, o.received_parts_count, to_ticks(o.value_of_received_parts)]      # the public getters
     else:
         out += [-1, 0, 0, 0, 0]
     col = [W.key(p.id) for p in o.collected_parts] if k == 6 else []
@@ -711,8 +711,9 @@ def budget_probe(sc):
         h.add_receive_part_callback(cb)
         system.simulate(4 * b + 8, print_summary=False)
     mx = src._max_produced_parts
+    recs = system.simulation_data.get('supplied_new_part', {}).get('src', [])
     return dict(budget=b, k=k, cut=cut, produced=src.produced_parts, max=None if mx == float('inf') else int(mx),
-                remaining=src.remaining_parts, received=snk.received_parts_count)
+                remaining=src.remaining_parts, received=snk.received_parts_count, supplied_records=len(recs))
 
 
 def item_info(W, it):
@@ -748,16 +749,16 @@ def observe(W, x, st, devs, pools, new):
             e['utilization'] = to_ticks(d.utilization_time) if d.env is not None else 0
         if k == 4:
             e['buf'] = [[to_ticks(t), item_info(W, it)] for t, it in d._buffer]
-            e['level'] = d._level
+            e['level'] = d.level()
             e['capacity'] = None if d._capacity == float('inf') else int(d._capacity)
             e['min_delay'] = to_ticks(d._minimum_delay)
         if k == 5:
-            e['produced'] = d._produced_parts
+            e['produced'] = d.produced_parts
             e['budget'] = None if d._max_produced_parts == float('inf') else int(d._max_produced_parts)
             e['generated'] = d._part_generator._generated_part_counter
             e['value'] = to_ticks(d.value)
         if k == 6:
-            e['received'] = d._received_parts_count
+            e['received'] = d.received_parts_count
             e['value'] = to_ticks(d.value)
             e['collected'] = [W.key(p.id) for p in d.collected_parts]
         if k == 7:
